@@ -14,6 +14,8 @@ import BB.Oracle.Ctx
 import BB.Oracle.Workers
 import BB.Oracle.Worker
 import BB.Oracle.Attempt
+import BB.Oracle.WaitCond
+import BB.Oracle.BufGate
 
 open BB.Oracle
 
@@ -27,7 +29,9 @@ def families : List (String × Fam) := [
   ("ctx", CtxFam.fam),
   ("workers", WorkersFam.fam),
   ("worker", WorkerFam.fam),
-  ("attempt", AttemptFam.fam)
+  ("attempt", AttemptFam.fam),
+  ("waitcond", WaitCondFam.fam),
+  ("bufgate", BufGateFam.fam)
 ]
 
 structure OAcc (σ : Type) where
